@@ -524,7 +524,7 @@ func runC13(tier string) int {
 
 	// report: confirm alone in a fresh process, minimise, classify
 	sort.SliceStable(bad, func(i, j int) bool { return bad[i].input < bad[j].input })
-	reported, knownConfirmed := 0, 0
+	reported, knownConfirmed, looked := 0, 0, 0
 	seenKey := map[string]bool{}
 	for _, v := range bad {
 		in := ins[v.input]
@@ -547,12 +547,21 @@ func runC13(tier string) int {
 		seenKey[key] = true
 		if isKnown {
 			knownConfirmed++
-		} else {
-			reported++
 		}
 		viol := c13Confirm(tw, seed, v.input, in, v.kind, v.class, v.msg, v.c, baseJobs[v.input].v.c)
 		if viol != nil {
+			if !isKnown && rep.classify(viol) == "" {
+				// only what is really reported uses up the budget: runs that turn out
+				// to be documented behaviour (-no-recover panics, exponential parses
+				// without -cache) or do not reproduce alone are looked at and dropped
+				reported++
+			}
 			rep.add(viol)
+		} else {
+			looked++
+			if looked > 60 {
+				break // a wall of excused or unreproducible runs: stop spending minutes on them
+			}
 		}
 	}
 
